@@ -8,7 +8,8 @@ Property theorems only; helper lemmas live in `Proofs/CodecLemmas.lean`.
 * `encode…`   : what navis' writers put on disk (model of `_write_skeleton` / `_write_mesh`);
 * `decode…`   : an **independent decoder of the published format** (shares no code with the encoders,
                 insists on the exact length);
-* `navisRead…`: the reader **that exists** (`np.frombuffer(f.read(k))` semantics: short reads pass).
+* `navisRead…`: the reader **that exists** (every counted block is read exactly, trailing bytes are ignored;
+                since the repair of DESIGN §6 #16 – before, `np.frombuffer(f.read(k))` let short reads pass).
 
 Bytes are `Nat`s with the explicit guard `BytesOK` (`< 256`); float32 values are opaque 32-bit patterns.
 All statements are over *all* vertex counts, edge lists, attribute lists, byte strings, file lists.
@@ -47,9 +48,9 @@ theorem skeleton_codec_round_trip (specs : List AttrSpec) (sk : Skel) (h : sk.OK
 
 /-- The reader that exists returns the same – also when bytes follow (e.g. a `radius` block that the
 `info` file does not announce). -/
-theorem navis_reader_round_trip (specs : List AttrSpec) (sk : Skel) (hs : SpecsOK specs) (h : sk.OK specs)
+theorem navis_reader_round_trip (specs : List AttrSpec) (sk : Skel) (h : sk.OK specs)
     (extra : List Nat) : navisReadSkel specs (encodeSkel specs sk ++ extra) = some sk :=
-  navisReadSkel_encode specs sk hs h extra
+  navisReadSkel_encode specs sk h extra
 
 /-- **Skeleton round trip (table level).** For every writable node table `t` (any ids, any row order,
 any forest) and both settings of `radius`: the bytes navis writes decode – with the independent decoder
@@ -63,10 +64,8 @@ theorem skeleton_round_trip (t : List Row) (radius : Bool) (h : Writable t) :
       sk.attrs = (if radius then [t.map (·.radius)] else []) ∧
       readParents sk = relabelByRow t := by
   have hok := toSkel_ok t radius h
-  have hs : SpecsOK (specsFor radius) := by
-    intro sp hsp; cases radius <;> simp [specsFor, radiusSpec] at hsp; subst hsp; decide
   refine ⟨toSkel t radius, decodeSkel_encode _ _ hok, ?_, rfl, rfl, readParents_toSkel t radius h.table⟩
-  have := navisReadSkel_encode _ _ hs hok []
+  have := navisReadSkel_encode _ _ hok []
   simpa using this
 
 /-- The relation, spelled out per row: the parent read back for row `i` is `-1` for a root and otherwise
@@ -96,29 +95,28 @@ theorem decode_rejects_truncated (specs : List AttrSpec) (sk : Skel) (h : sk.OK 
   decodeSkel_truncated specs sk h k hk
 
 /-- navis' reader agrees with the independent decoder on every file the decoder accepts. -/
-theorem navis_reader_agrees (specs : List AttrSpec) (bs : List Nat) (sk : Skel) (hs : SpecsOK specs)
+theorem navis_reader_agrees (specs : List AttrSpec) (bs : List Nat) (sk : Skel)
     (hb : BytesOK bs) (h : decodeSkel specs bs = some sk) : navisReadSkel specs bs = some sk :=
-  navisReadSkel_of_decode hs hb h
+  navisReadSkel_of_decode hb h
 
-/- Full statement (what the property asks of the reader that exists; it is FALSE for the code as it is,
-   DESIGN §6 #16 – see the counter-example below):
+/-- … and it accepts nothing else: whatever it returns re-encodes to a prefix of the file, i.e. the reader
+accepts exactly the well-formed files, possibly followed by bytes it ignores. -/
+theorem navis_reader_accepts_only_wellformed (specs : List AttrSpec) (bs : List Nat) (sk : Skel) (hb : BytesOK bs)
+    (h : navisReadSkel specs bs = some sk) : ∃ extra, bs = encodeSkel specs sk ++ extra :=
+  navisReadSkel_inv hb h
 
-   theorem navis_reader_rejects_truncated (specs) (sk) (h : sk.OK specs) (k) (hk : k < (encodeSkel specs sk).length) :
-       navisReadSkel specs ((encodeSkel specs sk).take k) = none
+/-- **navis' reader rejects every truncation** of a well-formed skeleton file, at any byte offset (full
+statement; provable since the repair of DESIGN §6 #16: every counted block is read with `_read_exactly`). -/
+theorem navis_reader_rejects_truncated (specs : List AttrSpec) (sk : Skel) (h : sk.OK specs) (k : Nat)
+    (hk : k < (encodeSkel specs sk).length) : navisReadSkel specs ((encodeSkel specs sk).take k) = none :=
+  navisReadSkel_truncated specs sk h k hk
 
-   Proved part: files cut inside the 8-byte header are rejected. Missing: cuts at an array-item boundary
-   (vertex block a multiple of 12 bytes, edge block a multiple of 8) are accepted by `np.frombuffer`. -/
-theorem navis_reader_rejects_truncated_partial (specs : List AttrSpec) (sk : Skel) (k : Nat) (hk : k < 8) :
-    navisReadSkel specs ((encodeSkel specs sk).take k) = none :=
-  navisReadSkel_short (by simp; omega)
-
-/-- Counter-example to the full statement: a 4-vertex / 3-edge file (80 bytes) cut after the first vertex
-(20 bytes) is read "successfully" as a one-vertex skeleton, while the independent decoder rejects it. -/
+/-- Historical witness of #16 (the un-repaired reader accepted it as a one-vertex skeleton): a 4-vertex /
+3-edge file (80 bytes) cut after the first vertex (20 bytes) is now rejected by both decoders. -/
 def cutExample : Skel :=
   ⟨[(1065353216, 1073741824, 1077936128), (0, 0, 0), (1, 1, 1), (2, 2, 2)], [(0, 1), (1, 2), (0, 3)], []⟩
 example : (encodeSkel [] cutExample).length = 80 := by decide
-example : navisReadSkel [] ((encodeSkel [] cutExample).take 20) =
-    some ⟨[(1065353216, 1073741824, 1077936128)], [], []⟩ := by decide
+example : navisReadSkel [] ((encodeSkel [] cutExample).take 20) = none := by decide
 example : decodeSkel [] ((encodeSkel [] cutExample).take 20) = none := by decide
 
 /-! ### precomputed meshes -/
@@ -135,10 +133,13 @@ theorem mesh_decode_rejects_short (bs r1 : List Nat) (n : Nat) (h1 : readU32 bs 
     (hbad : bs.length < 4 + 12 * n ∨ (bs.length - 4 - 12 * n) % 12 ≠ 0) : decodeMesh bs = none :=
   decodeMesh_rejects bs r1 n h1 hbad
 
-/-- Every truncation inside the vertex block or off a triangle boundary is rejected. -/
+/-- Every truncation inside the vertex block or off a triangle boundary is rejected – by the independent
+decoder and (since the repair of the vertex-block read) by navis' reader. A cut at a triangle boundary
+behind the vertex block is a well-formed file with fewer faces (the format has no face count). -/
 theorem mesh_decode_rejects_truncated (m : Mesh) (h : m.OK) (k : Nat) (hk : k < (encodeMesh m).length)
-    (hmis : k < 4 + 12 * m.verts.length ∨ (k - 4) % 12 ≠ 0) : decodeMesh ((encodeMesh m).take k) = none :=
-  decodeMesh_truncated_misaligned m h k hk hmis
+    (hmis : k < 4 + 12 * m.verts.length ∨ (k - 4) % 12 ≠ 0) :
+    decodeMesh ((encodeMesh m).take k) = none ∧ navisReadMesh ((encodeMesh m).take k) = none :=
+  ⟨decodeMesh_truncated_misaligned m h k hk hmis, navisReadMesh_truncated m h k hk hmis⟩
 
 /-! ### the `errors` policy and batch reads -/
 
@@ -198,15 +199,12 @@ theorem policy_table_complete (e : Errors) :
 theorem nrrd_voxel_units_round_trip (m : V3) (u : String) :
     nrrdReadVoxelUnits (nrrdWriteUnits m u) = (m, u) := rfl
 
-/- Full statement for Dotprops (FALSE for the code as it is, DESIGN §6 #18):
-     nrrdReadDotpropsUnits (nrrdWriteUnits m u) = (m, u)
-   The points are stored unscaled and the reader sets `units = "1 {u}"`. Proved part: it holds exactly
-   when the neuron was in unit-magnitude units. -/
-theorem nrrd_dotprops_units_partial (m : V3) (u : String) :
-    nrrdReadDotpropsUnits (nrrdWriteUnits m u) = (m, u) ↔ m = (1, 1, 1) := by
-  simp [nrrdReadDotpropsUnits, nrrdWriteUnits, eq_comm]
+/-- Dotprops (2-D point data): the unit magnitude written to the header is read back too (full statement;
+holds since the repair of DESIGN §6 #18 – before, the reader reset the magnitude to 1). -/
+theorem nrrd_dotprops_units_round_trip (m : V3) (u : String) :
+    nrrdReadDotpropsUnits (nrrdWriteUnits m u) = (m, u) := rfl
 
-example : nrrdReadDotpropsUnits (nrrdWriteUnits (8, 8, 8) "nanometer") ≠ ((8, 8, 8), "nanometer") := by decide
+example : nrrdReadDotpropsUnits (nrrdWriteUnits (8, 8, 8) "nanometer") = ((8, 8, 8), "nanometer") := by decide
 
 /-! ### the source says what the model implements (translator tie) -/
 
@@ -218,8 +216,9 @@ theorem gen_policy_matches_model :
     (∀ p ∈ IoConsts.policyTable, ∃ e, Errors.ofString? p.1 = some e ∧ (onError e).toString = p.2) ∧
     IoConsts.policyCatches = "BaseException" ∧
     IoConsts.baseFormatOutputFilters = true ∧ IoConsts.nrrdFormatOutputFilters = true ∧
+    IoConsts.meshFormatOutputFilters = true ∧ IoConsts.policyAttrsNoneSafe = true ∧
     IoConsts.zipSwallows = ["ignore"] ∧ IoConsts.parallelMap = "imap" := by
-  refine ⟨by decide, ?_, by decide, by decide, by decide, by decide, by decide⟩
+  refine ⟨by decide, ?_, by decide, by decide, by decide, by decide, by decide, by decide, by decide⟩
   decide
 
 open Navis.Gen in
@@ -232,23 +231,34 @@ theorem gen_skeleton_layout_matches_model :
     (∀ p ∈ IoConsts.skelWriterDtypes, Layout.dtypeSize p.2 = some 4) ∧
     IoConsts.skelEdgeColumns = Layout.skelEdgeColumns ∧
     IoConsts.skelReaderFields = Layout.skelReaderFields ∧
+    IoConsts.skelReaderExact = Layout.skelReaderExact ∧ IoConsts.skelAttrReadExact = Layout.skelAttrReadExact ∧
+    IoConsts.skelEdgesCastAfterMapping = Layout.skelEdgesCastAfterMapping ∧
     IoConsts.edgeDictKeyCol = Layout.edgeDictKeyCol ∧ IoConsts.edgeDictValCol = Layout.edgeDictValCol ∧
     IoConsts.edgeDictDefault = Layout.edgeDictDefault ∧
     IoConsts.radiusAttr = Layout.radiusAttr ∧
     Layout.radiusAttr = (radiusSpec.id, "float32", radiusSpec.comps) ∧ Layout.dtypeSize "float32" = some radiusSpec.size := by
   refine ⟨by decide, by decide, by decide, by decide, by decide, by decide, by decide, by decide, by decide,
-    by decide, by decide, by decide⟩
+    by decide, by decide, by decide, by decide, by decide, by decide⟩
 
 open Navis.Gen in
 theorem gen_mesh_layout_matches_model :
     IoConsts.meshWriterOrder = Layout.meshWriterOrder ∧ IoConsts.meshWriterDtypes = Layout.meshWriterDtypes ∧
-    IoConsts.meshReaderFields = Layout.meshReaderFields ∧
-    IoConsts.infoTypesWritten = Layout.infoTypes ∧ IoConsts.infoTypesRead = Layout.infoTypes := by
-  refine ⟨by decide, by decide, by decide, by decide, by decide⟩
+    IoConsts.meshReaderFields = Layout.meshReaderFields ∧ IoConsts.meshReaderExact = Layout.meshReaderExact ∧
+    IoConsts.infoTypesWritten = Layout.infoTypes ∧ IoConsts.infoTypesRead = Layout.infoTypes ∧
+    IoConsts.infoTransformDtype = "float" ∧ IoConsts.infoTransformPerAxis = true := by
+  refine ⟨by decide, by decide, by decide, by decide, by decide, by decide, by decide, by decide⟩
 
 open Navis.Gen in
 theorem gen_nrrd_header_matches_model :
-    IoConsts.nrrdHeaderWritten = Layout.nrrdHeaderWritten ∧ IoConsts.nrrdHeaderRead = Layout.nrrdHeaderRead := by
+    IoConsts.nrrdHeaderWritten = Layout.nrrdHeaderWritten ∧ IoConsts.nrrdHeaderRead = Layout.nrrdHeaderRead ∧
+    IoConsts.nrrdKCastToInt = true ∧ IoConsts.nrrdDotpropsUnitsFromHeader = true := by
+  refine ⟨by decide, by decide, by decide, by decide⟩
+
+open Navis.Gen in
+/-- HDF5 (no Lean model, harness only): the NeuronList recursion forwards `serialized`/`raw`, annotation groups are
+recognised as `h5py.Group`. -/
+theorem gen_h5_facts :
+    IoConsts.h5ListForwards = ["raw", "serialized"] ∧ IoConsts.h5AnnotationGroupClass = "h5py.Group" := by
   refine ⟨by decide, by decide⟩
 
 /-! ### non-vacuity: concrete inputs meeting the hypotheses -/
@@ -269,8 +279,6 @@ example : Skel.OK [⟨"radius", 4, 1⟩, ⟨"label", 1, 1⟩, ⟨"dir", 2, 3⟩]
 example : Mesh.OK ⟨[(0, 0, 0), (1065353216, 0, 0), (0, 1065353216, 0)], [(0, 1, 2)]⟩ :=
   ⟨by decide, by decide, by decide⟩
 example : BytesOK [4, 0, 0, 0] := by intro b hb; simp at hb; omega
-example : SpecsOK [⟨"radius", 4, 1⟩, ⟨"dir", 2, 3⟩] := by
-  intro sp h; simp at h; rcases h with rfl | rfl <;> decide
 /-- policy: a concrete batch with a corrupt middle file -/
 example : readBatch .log (fun n : Nat => if n % 2 = 0 then some n else none) [2, 3, 4] = some [2, 4] := by decide
 example : readBatch .raise (fun n : Nat => if n % 2 = 0 then some n else none) [2, 3, 4] = none := by decide
